@@ -127,7 +127,9 @@ func (k *Keyring) RemoveKey(key []byte) error {
 	}
 	for i, installedKey := range k.keys {
 		if bytes.Equal(key, installedKey) {
-			keys := append(k.keys[:i], k.keys[i+1:]...)
+			// Build the new list in a fresh array: k.keys may still be held
+			// (and iterated outside the lock) by earlier GetKeys() callers.
+			keys := append(k.keys[:i:i], k.keys[i+1:]...)
 			k.installKeysLocked(keys, k.keys[0])
 		}
 	}
